@@ -32,6 +32,8 @@ type c04Case struct {
 	Text   string   `json:"handler_text,omitempty"`
 	Method string   `json:"handler_method,omitempty"`
 	Setup  [][]byte `json:"store_setup,omitempty"`
+	// TimeoutWriteAt: that reply Write is cut in half by a timeout - if the server armed a write deadline
+	TimeoutWriteAt int `json:"timeout_write_at,omitempty"`
 }
 
 // handlerResult builds the double's scripted result.
@@ -72,7 +74,7 @@ func c04Check(cs c04Case) (clause, detail string) {
 	// about frames, not about the numeric validity of such a payload.
 	resp.LaxIntegers = true
 	defer func() { resp.LaxIntegers = false }()
-	conn := seq.NewConn(seq.Script{Input: cs.Input})
+	conn := seq.NewConn(seq.Script{Input: cs.Input, TimeoutWriteAt: cs.TimeoutWriteAt})
 	var server *redis.Server
 	switch cs.Kind {
 	case "store":
@@ -239,6 +241,19 @@ func c04Run(c *fw.Ctx) {
 			}
 		}
 	}
+	// (f) deadlines: a client configures an idle timeout the way Redis clients do (CONFIG SET
+	// timeout) and then reads slowly; a reply write that is cut by an expiring deadline must not
+	// be followed by further frames (injected only if the server really armed a write deadline)
+	for _, L := range []int{10, 5000} {
+		big := strings.Repeat("v", L)
+		setup := [][]byte{grammar.Encode([]string{"SET", "big", big})}
+		for _, knob := range [][]string{{"CONFIG", "SET", "timeout", "1"}, {"CONFIG", "SET", "timeout", "1", "tcp-keepalive", "1"}} {
+			for at := 2; at <= 5; at++ {
+				in := concat(grammar.Encode(knob), grammar.Encode([]string{"GET", "big"}), grammar.Encode([]string{"GET", "big"}), grammar.Encode([]string{"ECHO", big}), grammar.Encode([]string{"PING"}))
+				run(c04Case{Kind: "store", Setup: setup, Input: in, NReq: 5, TimeoutWriteAt: at}, "write-deadline-expires")
+			}
+		}
+	}
 	// (e) large replies still on their way when the connection runs into a protocol error,
 	// the end of the stream or QUIT: whatever was written must be whole frames
 	for _, L := range []int{1000, 4000, 4096, 5000, 8192, 9000, 70000} {
@@ -281,7 +296,7 @@ func init() {
 	fw.Register(&fw.Prop{
 		ID:          "C04",
 		Level:       "exploration",
-		Rule:        "(a) every valid request shape of the grammar (<=12 shapes per command; thorough: all shapes, and pairs of positions for the first 40) with each argument position, command name included, replaced by each of 13 (thorough 23) nasty strings (CR, LF, CRLF followed by forged +OK / :1 / $-1 frames, NUL, 0xff, type characters), pairs of positions for the first shapes; 21 non-command top-level values (status, error, integer, bulk, null, empty array, null/integer/status/error/nested first element), alone and doubled inside a pipeline; (b) 29 trigger commands x 10 handler result kinds (status/error/integer/bulk/array/nested carrying each nasty string, (nil,nil), (nil,err), (msg,err), nil bulk); (c) the example store preloaded with nasty keys/values/members and read back by 24 commands. (e) replies of 1000..70000 bytes (GET, LRANGE, ECHO, twice) still pending when the stream continues with a protocol error, ends, ends inside a request, or carries QUIT or a non-command value. (d) two connections running scripts with replies of every type and of different lengths through the real accept loop, every schedule within deviation bound 2 (thorough 3): each connection's bytes must decode strictly into exactly its own replies (no bytes shared between connections). Oracle: the whole reply log is a concatenation of complete strict-RESP2 values, with exactly one frame per request (fewer only if the server closed the connection).",
+		Rule:        "(a) every valid request shape of the grammar (<=12 shapes per command; thorough: all shapes, and pairs of positions for the first 40) with each argument position, command name included, replaced by each of 13 (thorough 23) nasty strings (CR, LF, CRLF followed by forged +OK / :1 / $-1 frames, NUL, 0xff, type characters), pairs of positions for the first shapes; 21 non-command top-level values (status, error, integer, bulk, null, empty array, null/integer/status/error/nested first element), alone and doubled inside a pipeline; (b) 29 trigger commands x 10 handler result kinds (status/error/integer/bulk/array/nested carrying each nasty string, (nil,nil), (nil,err), (msg,err), nil bulk); (c) the example store preloaded with nasty keys/values/members and read back by 24 commands. (f) after CONFIG SET timeout 1, the j-th reply write (j=2..5) is cut in half by a timeout, injected only if the server armed a write deadline on the connection: nothing may follow the cut frame. (e) replies of 1000..70000 bytes (GET, LRANGE, ECHO, twice) still pending when the stream continues with a protocol error, ends, ends inside a request, or carries QUIT or a non-command value. (d) two connections running scripts with replies of every type and of different lengths through the real accept loop, every schedule within deviation bound 2 (thorough 3): each connection's bytes must decode strictly into exactly its own replies (no bytes shared between connections). Oracle: the whole reply log is a concatenation of complete strict-RESP2 values, with exactly one frame per request (fewer only if the server closed the connection).",
 		Assumptions: []string{"the strict decoder in /verif/resp judges the reply stream", "panics/hangs are judged by C07/C03, not here"},
 		Run:         func(c *fw.Ctx) { c04Run(c); c04Sched(c) },
 		Replay:      c04ReplayAll,
